@@ -8,6 +8,7 @@ from vlib.par import pmap
 PROPERTY = 'C03'
 LEVEL = 'other'
 TARGETS = [
+    ('xmledit', 'xml.XMLElementEdit.bounds'), ('xmledit', 'xml.XMLElementEdit.edits'),
     ('bounded', 'bounds.Range.__add__'), ('bounded', 'edits.AbstractEdit.bounds'),
     ('bounded', 'graphtage.KeyValuePairEdit.bounds'), ('bounded', 'graphtage.KeyValuePairEdit.edits'),
     ('editdistance', 'levenshtein.EditDistance._best_match'),
